@@ -313,9 +313,10 @@ class PilotManager(rpu.ClientComponent):
                                 thing['state'])
 
                 # we got the state update from the state callback - don't
-                # publish it again
-                if not self._update_pilot(thing, publish=False):
-                    return False
+                # publish it again.  NOTE: `_update_pilot()` has no return
+                # value: all pilots named in the message need to be updated,
+                # not only the first one.
+                self._update_pilot(thing, publish=False)
 
         return True
 
